@@ -1,5 +1,37 @@
 import Pyx12Verif.Props.C16
+import Pyx12Verif.Props.C16Rules
 open Pyx12Verif.MapSkel
 #print axioms fetch_sound
 #print axioms paths_unique
 #print axioms obligation_gives_fetch
+#print axioms obligation_excludes
+#print axioms usage_sound
+#print axioms repeat_sound
+#print axioms elem_sound
+#print axioms seq_sound
+#print axioms note_sound
+#print axioms noteOK_gives_syn
+#print axioms note_sound_syn
+#print axioms pos_sound
+#print axioms sibling_keys_disjoint
+#print axioms isMatch_key
+#print axioms sibling_sound
+#print axioms sibling_sound_checked
+#print axioms slots_sound
+#print axioms pathdup_sound
+#print axioms sibling_slot_needed
+#print axioms sibling_full_fails
+#print axioms obligation_gives_usage
+#print axioms obligation_gives_repeat
+#print axioms obligation_gives_elem
+#print axioms obligation_gives_seq
+#print axioms obligation_gives_note
+#print axioms obligation_gives_pos
+#print axioms obligation_gives_sibling
+#print axioms obligation_gives_pathdup
+#print axioms index_sound
+#print axioms index_lookup_unique
+#print axioms getFilename_first
+#print axioms nodeAt_snoc
+#print axioms sibsAt_iff
+#print axioms local_in_violations
